@@ -27,6 +27,7 @@ type Program struct {
 	Prog     *ssa.Program
 	Fset     *token.FileSet
 	RepoPath string // import path prefix of the code under test
+	RepoDir  string // directory of the code under test
 	fnInfos  sync.Map // *ssa.Function -> *fnInfo
 	runtimeErrorString types.Type
 	sizes    types.Sizes
@@ -190,6 +191,7 @@ type Machine struct {
 	curInstr ssa.Instruction
 	curFn    *ssa.Function
 	ForkSites bool
+	race      raceState
 }
 
 func NewProgram(prog *ssa.Program, repoPath string) *Program {
@@ -544,6 +546,11 @@ func (fr *frame) visitInstr(instr ssa.Instruction) continuation {
 	case *ssa.UnOp:
 		if instr.Op == token.ARROW {
 			fr.set(instr, m.chanRecv(fr, instr))
+		} else if instr.Op == token.MUL && m.race.on {
+			if p, ok := fr.get(instr.X).(*value); ok && p != nil {
+				m.raceLoadStore(deref(instr.X.Type()), p, false)
+			}
+			fr.set(instr, m.unop(instr, fr.get(instr.X)))
 		} else {
 			fr.set(instr, m.unop(instr, fr.get(instr.X)))
 		}
@@ -615,6 +622,9 @@ func (fr *frame) visitInstr(instr ssa.Instruction) continuation {
 		p := fr.get(instr.Addr).(*value)
 		if p == nil {
 			panic(m.nilDeref())
+		}
+		if m.race.on {
+			m.raceLoadStore(deref(instr.Addr.Type()), p, true)
 		}
 		store(deref(instr.Addr.Type()), p, fr.get(instr.Val))
 
@@ -762,6 +772,7 @@ func (fr *frame) visitInstr(instr ssa.Instruction) continuation {
 			break
 		}
 		om := x.(*omap)
+		m.raceMap(om, false)
 		v, ok := om.lookup(m, key)
 		if !ok {
 			v = zero(instr.X.Type().Underlying().(*types.Map).Elem())
@@ -778,6 +789,7 @@ func (fr *frame) visitInstr(instr ssa.Instruction) continuation {
 		if om == nil {
 			panic(targetPanic{iface{m.P.runtimeErrorString, "assignment to entry in nil map"}})
 		}
+		m.raceMap(om, true)
 		om.insert(m, copyVal(fr.get(instr.Key)), copyVal(fr.get(instr.Value)))
 
 	case *ssa.TypeAssert:
@@ -1019,6 +1031,12 @@ func (m *Machine) callBuiltin(caller *frame, callpos token.Pos, fn *ssa.Builtin,
 		// Go's growth: when capacity is exceeded a new array is allocated. Mirror
 		// that exactly enough for aliasing: append in place iff it fits.
 		if len(dst)+len(cp) <= cap(dst) {
+			if m.race.on {
+				full := dst[:len(dst)+len(cp)]
+				for i := len(dst); i < len(full); i++ {
+					m.raceCell(&full[i], true)
+				}
+			}
 			return append(dst, cp...)
 		}
 		nd := make([]value, len(dst), growCap(cap(dst), len(dst)+len(cp)))
@@ -1048,6 +1066,7 @@ func (m *Machine) callBuiltin(caller *frame, callpos token.Pos, fn *ssa.Builtin,
 		return nil
 
 	case "delete":
+		m.raceMap(args[0].(*omap), true)
 		args[0].(*omap).delete(m, args[1])
 		return nil
 
@@ -1088,6 +1107,7 @@ func (m *Machine) callBuiltin(caller *frame, callpos token.Pos, fn *ssa.Builtin,
 		case []value:
 			return len(x)
 		case *omap:
+			m.raceMap(x, false)
 			return x.len()
 		case *ichan:
 			if x == nil {
